@@ -6,7 +6,8 @@
     means that the implementation disagrees with the model or that a clause fails on its observations. *)
 From Irismod Require Import Genesis.Store.
 From Irismod Require Genesis.Coinswap Genesis.CoinswapProofs Genesis.Nft Genesis.NftProofs
-                     Genesis.Token Genesis.TokenProofs Genesis.Random Genesis.RandomProofs.
+                     Genesis.Token Genesis.TokenProofs Genesis.Random Genesis.RandomProofs
+                     Genesis.Htlc Genesis.HtlcProofs.
 
 Module PCoinswap.
 Import Genesis.Coinswap Genesis.CoinswapProofs.
@@ -50,7 +51,8 @@ Proof.
   set (r := mkRun s (export s) true 0 (Some s) (Some (export s)) None).
   assert (Hc : corr_run r = true).
   { unfold corr_run, r, fixed_v. cbn [r_sA r_gA r_val r_imp r_sB r_gB r_t].
-    rewrite Hinv, (token_roundtrip false s Hinv), (token_export_validates_lemma s Hinv). rewrite !Prelude.eqb_refl. reflexivity. }
+    assert (Hcore : invb_core s = true) by (rewrite invb_split in Hinv; apply andb_true_iff in Hinv; tauto).
+    rewrite Hcore, (token_roundtrip false s Hinv), (token_export_validates_lemma s Hinv). rewrite !Prelude.eqb_refl. reflexivity. }
   assert (Hp : prop_run r = 0).
   { unfold prop_run, r. cbn [r_sA r_gA r_val r_imp r_sB r_gB first_code]. rewrite !Prelude.eqb_refl. reflexivity. }
   rewrite Hc, Hp. reflexivity.
@@ -74,3 +76,25 @@ Proof.
   rewrite Hc, Hp. reflexivity.
 Qed.
 End PRandom.
+
+Module PHtlc.
+Import Genesis.Htlc Genesis.HtlcProofs.
+(** the model's own run of the as-is path: the imported state is the exported one without its closed contracts *)
+Definition model_run (s : state) : run := mkRun s (export s) true 0 (Some (norm s)) (Some (export (norm s))).
+Lemma genesis_eq_mod_prev_refl g : genesis_eq_mod_prev g g = true.
+Proof. unfold genesis_eq_mod_prev. rewrite !Prelude.eqb_refl. destruct (g_prev g); reflexivity. Qed.
+Theorem htlc_model_passes_check h s :
+  invb true s = true -> check_htlc (mkCase h [model_run s]) = (-1, -1, 0).
+Proof.
+  intros Hinv. unfold check_htlc, model_run, fixed. cbn [c_runs c_height check_runs].
+  set (r := mkRun s (export s) true 0 (Some (norm s)) (Some (export (norm s)))).
+  assert (Hcore : invb_core s = true) by (rewrite (invb_split true) in Hinv; apply andb_true_iff in Hinv; tauto).
+  assert (Hc : corr_run true r = true).
+  { unfold corr_run, r. cbn [r_sA r_gA r_val r_imp r_sB r_gB].
+    rewrite (htlc_roundtrip s Hinv), (htlc_export_validates_lemma s Hinv). rewrite !Prelude.eqb_refl. reflexivity. }
+  assert (Hp : prop_run r = 0).
+  { unfold prop_run, r. cbn [r_sA r_gA r_val r_imp r_sB r_gB first_code].
+    rewrite export_norm, genesis_eq_mod_prev_refl, queries_norm, !Prelude.eqb_refl. reflexivity. }
+  change (r_sA r) with s. rewrite Hcore, Hc, Hp. reflexivity.
+Qed.
+End PHtlc.
